@@ -135,6 +135,11 @@ def twins(g, rng):
             fam.append(({'a': {rule: v}}, 'type-twin'))
             fam.append(({'a': {'type': 'dict', 'valuesrules': {rule: v}}} if rule != 'type' else {'a': {'valuesrules': {rule: v}}}, 'type-twin'))
             fam.append(({'a': {'anyof': [{rule: v}]}} if rule != 'rename' else {'a': {'type': 'list', 'schema': {rule: v}}}, 'type-twin'))
+    # member twins: a tuple (hashable) and a list (not hashable) as MEMBER of a constraint that wants hashables
+    for rule, members in (('excludes', ('a', 'b')), ('dependencies', ('a',)), ('contains', (1, 2))):
+        for v in ([tuple(members)], [list(members)]):
+            fam.append(({'a': {rule: v}}, 'type-twin'))
+            fam.append(({'a': {'type': 'dict', 'valuesrules': {rule: v}}}, 'type-twin'))
     # context twins: the same rule set as bulk rule set, as *of definition, as field rules
     for rs in ({'default': 1}, {'coerce': 'to_int'}, {'rename': 'q'}, {'type': 'integer', 'default_setter': 'const5'}, {'purge_unknown': True},
                {'type': 'integer'}, {'min': 1, 'max': 2}):
